@@ -96,6 +96,17 @@ bench("fanout", ["A", "B", "C"],
       sinks=["s1"],
       procs=[ev("A", 1), ev("A", 1)])
 
+# One output connected to sinks through plain / map / filter_map connections and to a model with a small mailbox: the
+# sinks receive what their connection lets through, in sending order, whether or not the model sender had to wait.
+bench("sinkmix", ["A", "B"],
+      prog=[[send(1, 2), send(1, 3), send(1, 4), send(2, 5)],   # 1 (A)
+            [NOP], [NOP], [NOP], [NOP]],
+      ports={"A": [out(conn("sink:s1"), conn("sink:s2", "map", delta=10), conn("sink:s1", "filter", accept=[3], delta=100),
+                       conn("B"), conn("sink:s2", "filter", accept=[2, 4], delta=20)),
+                   out(conn("sink:s2"))]},
+      sinks=["s1", "s2"],
+      procs=[ev("A", 1), ev("A", 1)])
+
 # Queries: A asks B, C (mapped) and B again (filtered); repliers themselves send an event to a sink.
 bench("query", ["A", "B", "C"],
       prog=[[query(1, 2), query(1, 3)],  # 1 (A)
@@ -232,6 +243,14 @@ bench("panic_inflight", ["A", "B", "C"],
             [NOP]],                                    # 2
       ports={"A": [out(conn("B")), out(conn("C"))]},
       procs=[ev("B", 2), ev("A", 1)])
+
+# Models added with an empty name are known as "<unknown>", also inside a hierarchy ("P.<unknown>", "P.<unknown>.x").
+for who in ("P.<unknown>", "P.<unknown>.x", "<unknown>"):
+    bench("hanon_" + who.replace(".", "_").replace("<", "").replace(">", ""), ["<unknown>", "P", "P.<unknown>", "P.<unknown>.x"],
+          prog=[[NOP], [bop("panic")], [send(1, 1)]],
+          ports={"P": [out(conn("P.<unknown>"))], "<unknown>": [out(conn("P.<unknown>.x"))]},
+          initprog={"P": 3, "<unknown>": 3},
+          procs=[ev("P.<unknown>.x", 1), ev(who, 2)])
 
 # Panic attribution in a hierarchy: the panicking model is named by its fully qualified name.
 for who in ("P", "P.a", "P.b", "P.a.x", "Q"):
